@@ -1,6 +1,126 @@
-import sys
-exec(open('/tmp/c06work/gen2.py').read().split('if __name__ == "__main__":')[0])
-def dmg(t, cells, marks):
-    # kill the data address mark of sector 8 on every track (flip one clock cell)
-    cells[marks[(t, 8, 'mark')] + 4] ^= 1
-open('probe.hfe','wb').write(image(3,10,dmg))
+#!/usr/bin/env python3
+# Build a single-sided HFE (v1) image with ISO/IBM FM tracks holding an
+# Acorn-DFS style catalogue and recognisable per-sector payloads, optionally
+# with damage applied to the FM cell stream.
+import struct, sys
+
+def crc16(data, crc=0xFFFF):
+    for b in data:
+        crc ^= b << 8
+        for _ in range(8):
+            crc = ((crc << 1) ^ 0x1021) & 0xFFFF if crc & 0x8000 else (crc << 1) & 0xFFFF
+    return crc
+
+class Fm:
+    # self.bits is the FM cell stream: clock, data, clock, data ...
+    def __init__(self):
+        self.bits = []
+    def byte(self, d, clock=0xFF):
+        for i in range(7, -1, -1):
+            self.bits += [(clock >> i) & 1, (d >> i) & 1]
+    def bytes_(self, bs):
+        for b in bs:
+            self.byte(b)
+
+def sector_payload(t, s):
+    line = ("T%02dS%02d " % (t, s)).encode()
+    return (line * 40)[:256]
+
+def build_track(t, spt, marks):
+    # marks records the cell offsets of interesting places on the track
+    m = Fm()
+    m.bytes_([0xFF] * 16)
+    for s in range(spt):
+        m.bytes_([0x00] * 6)
+        m.byte(0xFE, clock=0xC7)
+        idf = bytes([0xFE, t, 0, s, 1])
+        m.bytes_(idf[1:] + struct.pack(">H", crc16(idf)))
+        m.bytes_([0xFF] * 11)
+        m.bytes_([0x00] * 6)
+        marks[(t, s, 'mark')] = len(m.bits)
+        m.byte(0xFB, clock=0xC7)
+        marks[(t, s, 'data')] = len(m.bits)
+        data = PAYLOAD[(t, s)]
+        m.bytes_(data + struct.pack(">H", crc16(b"\xFB" + data)))
+        m.bytes_([0xFF] * 21)
+    m.bytes_([0xFF] * 40)
+    return m.bits
+
+def pack_hfe_side(cells):
+    # Each FM cell occupies two raw HFE bits (the reader samples the second
+    # one); raw bits are stored least-significant-bit first in each byte.
+    raw = []
+    for c in cells:
+        raw += [0, c]
+    raw += [0] * (-len(raw) % 8)
+    out = bytearray()
+    for i in range(0, len(raw), 8):
+        v = 0
+        for k, b in enumerate(raw[i:i+8]):
+            v |= b << k
+        out.append(v)
+    return bytes(out)
+
+PAYLOAD = {}
+def make_payloads(tracks, spt):
+    for t in range(tracks):
+        for s in range(spt):
+            PAYLOAD[(t, s)] = sector_payload(t, s)
+    total = tracks * spt
+    # Acorn DFS catalogue: one file $.DATA from sector 2 to the end of the disc.
+    s0 = bytearray(256); s1 = bytearray(256)
+    s0[0:8] = b"C06DEMO "
+    s0[8:15] = b"DATA   "; s0[15] = ord('$')
+    s1[0:4] = b"    "
+    s1[4] = 0; s1[5] = 8              # one file
+    s1[6] = (total >> 8) & 3; s1[7] = total & 0xFF
+    length = (total - 2) * 256
+    s1[12] = length & 0xFF; s1[13] = (length >> 8) & 0xFF
+    s1[14] = ((length >> 16) & 3) << 4
+    s1[15] = 2
+    PAYLOAD[(0, 0)] = bytes(s0); PAYLOAD[(0, 1)] = bytes(s1)
+
+def image(tracks, spt, damage):
+    """damage(t, cells, marks) may modify the FM cell list of track t in place."""
+    make_payloads(tracks, spt)
+    sides = []
+    for t in range(tracks):
+        marks = {}
+        cells = build_track(t, spt, marks)
+        if damage: damage(t, cells, marks)
+        sides.append(pack_hfe_side(cells))
+    hdr = bytearray(b"\xFF" * 512)
+    hdr[0:8] = b"HXCPICFE"
+    hdr[8] = 0                  # format revision
+    hdr[9] = tracks
+    hdr[10] = 1                 # sides
+    hdr[11] = 2                 # ISOIBM_FM_ENCODING
+    hdr[12:14] = struct.pack("<H", 250)
+    hdr[14:16] = struct.pack("<H", 300)
+    hdr[16] = 7                 # generic Shugart
+    hdr[17] = 1
+    hdr[18:20] = struct.pack("<H", 1)   # track list at block 1
+    hdr[20] = 0xFF              # write allowed
+    hdr[21] = 0xFF              # single step
+    hdr[22] = 0xFF; hdr[23] = 0xFF; hdr[24] = 0xFF; hdr[25] = 0xFF  # no alternative track 0 encoding
+    lut = bytearray(b"\xFF" * 512)
+    body = b""
+    block = 2
+    for t, side0 in enumerate(sides):
+        side0 += b"\0" * (-len(side0) % 256)
+        inter = b""
+        for i in range(0, len(side0), 256):
+            inter += side0[i:i+256] + b"\0" * 256
+        lut[4*t:4*t+4] = struct.pack("<HH", block, len(inter))
+        body += inter
+        block += len(inter) // 512
+    return bytes(hdr) + bytes(lut) + body
+
+
+TRACKS, SPT = 3, 10
+def dmg_mark(t, cells, marks):
+    # destroy the data address mark of sector 8 on every track: flip one clock cell of the mark byte
+    at = marks[(t, 8, 'mark')]
+    cells[at + 2*2] ^= 1      # a clock cell of the 0xFB/0xC7 mark
+open('good.hfe','wb').write(image(TRACKS, SPT, None))
+open('bad.hfe','wb').write(image(TRACKS, SPT, dmg_mark))
